@@ -149,6 +149,18 @@ def gen_cases(rng, tier):
         for f in [0.1, 1e-300, 5e-324, 1.7976931348623157e308, 123456.789, -0.0, 2.5]:
             u = rng.choice(plain)
             ops.append(["q_mk", rng.choice(["-", ctx.units[u]["cls"]]), "L:" + rat(Fraction(f)), u, MODE])
+        # numbers with more significant digits than any default precision (the
+        # standard library's context rounds to 28), as both kinds of Decimal,
+        # Fraction, int and text: held exactly
+        for kind in ("P:", "P:", "", "F:"):
+            u = rng.choice(plain)
+            x = _qty.long_decimal(rng)
+            ops.append(["q_mk", rng.choice(["-", ctx.units[u]["cls"]]), kind + rat(x), u, MODE])
+            if kind == "F:":
+                ops.append(["q_str", f"F:{rat(x)}@{u}"])
+            elif kind == "":
+                v_, p_ = _dec_pair(x)
+                ops.append(["q_str", f"D:{v_}:{p_}@{u}"])
         # every accepted kind of number (int, float, Fraction, both Decimals),
         # also into quantised types: the exact value, rounded only to the
         # unit's quantum (few-digit amounts that are NOT on the grid included)
